@@ -491,6 +491,9 @@ class DistributedNetwork(BaseManager):
     async def _on_distributed_search_request(
             self, message: DistributedSearchRequest.Request, connection: PeerConnection):
 
+        if self._session and message.username == self._session.user.name:
+            return
+
         await self.send_messages_to_children(message)
 
     @on_message(DistributedServerSearchRequest.Request)
@@ -499,6 +502,9 @@ class DistributedNetwork(BaseManager):
 
         if message.distributed_code != DistributedSearchRequest.Request.MESSAGE_ID:
             logger.warning("no handling for server search request with code : %d", message.distributed_code)
+            return
+
+        if self._session and message.username == self._session.user.name:
             return
 
         dmessage = DistributedSearchRequest.Request(
